@@ -621,6 +621,16 @@ func (e *Engine) CheckProperty(prop, tier, verifDir string, verbose, writeEviden
 			exit = 2
 		}
 	}
+	// thorough tier: bounded stand-ins for trusted functions (labelled bounded, never counted as proved)
+	var bounded []map[string]any
+	if tier == "thorough" && writeEvidence {
+		bs, bviol := runBounded(prop, verifDir, e.RepoDir)
+		bounded = bs
+		for _, l := range bviol {
+			lines = append(lines, l)
+			exit = 1
+		}
+	}
 	wall := time.Since(t0).Seconds()
 	if writeEvidence {
 		var tb []string
@@ -652,6 +662,9 @@ func (e *Engine) CheckProperty(prop, tier, verifDir string, verbose, writeEviden
 			ev["coverage"].(map[string]any)["canaries"] = canaries
 		}
 		ev["coverage"].(map[string]any)["assumption_scan"] = e.assumptionScan(keys)
+		if bounded != nil {
+			ev["coverage"].(map[string]any)["bounded_stand_ins"] = bounded
+		}
 		os.MkdirAll(filepath.Join(verifDir, "evidence"), 0o755)
 		b, _ := json.MarshalIndent(ev, "", " ")
 		os.WriteFile(filepath.Join(verifDir, "evidence", prop+".json"), b, 0o644)
@@ -903,4 +916,54 @@ func (e *Engine) assumptionScan(keys []string) map[string]any {
 		"axioms":                      axioms,
 		"engine_models_assumed":       "sync, sync/atomic, errors, fmt.Errorf, encoding/binary, time, append/copy/maps/channels (turnvc/models.go)",
 	}
+}
+
+// runBounded runs the bounded stand-ins stored under /verif/selftest/bounded/<prop>/ (a Go test injected into the
+// package of the trusted functions with `go test -overlay`; nothing is written into /repo). A failing stand-in is a
+// violation with the failing input in the replay file; a passing one is reported as "bounded", never as proved.
+func runBounded(prop, verifDir, repoDir string) ([]map[string]any, []string) {
+	dir := filepath.Join(verifDir, "selftest", "bounded", prop)
+	data, err := os.ReadFile(filepath.Join(dir, "meta.json"))
+	if err != nil {
+		return nil, nil
+	}
+	var meta struct {
+		Pkgdir, Test, File, Bound, Claim, Why string
+		Functions                             []string
+	}
+	if json.Unmarshal(data, &meta) != nil {
+		return nil, nil
+	}
+	tmp, err := os.MkdirTemp("", "turnvc-bounded-")
+	if err != nil {
+		return nil, nil
+	}
+	defer os.RemoveAll(tmp)
+	ov := map[string]any{"Replace": map[string]string{filepath.Join(repoDir, meta.Pkgdir, meta.File): filepath.Join(dir, meta.File)}}
+	ovb, _ := json.Marshal(ov)
+	ovf := filepath.Join(tmp, "overlay.json")
+	os.WriteFile(ovf, ovb, 0o644)
+	outf := filepath.Join(tmp, "out.json")
+	cmd := exec.Command("bash", "-c", fmt.Sprintf("cd %s && go test -overlay %s -vet=off -count=1 -timeout 300s -run '^%s$' .", filepath.Join(repoDir, meta.Pkgdir), ovf, meta.Test))
+	cmd.Env = append(os.Environ(), "GOFLAGS=-mod=mod", "GOPROXY=off", "TURNVC_BOUNDED_OUT="+outf)
+	t1 := time.Now()
+	o, runErr := cmd.CombinedOutput()
+	rec := map[string]any{"label": "bounded (NOT proved)", "functions": meta.Functions, "bound": meta.Bound, "claim": meta.Claim, "why": meta.Why, "wall_s": time.Since(t1).Seconds()}
+	var res map[string]any
+	if b, err := os.ReadFile(outf); err == nil {
+		json.Unmarshal(b, &res)
+		rec["cases"] = res["cases"]
+	}
+	var viol []string
+	if runErr != nil {
+		rec["status"] = "FAILED"
+		rp := filepath.Join(verifDir, "replays", prop+"-bounded-"+meta.Test+".json")
+		os.MkdirAll(filepath.Dir(rp), 0o755)
+		rb, _ := json.MarshalIndent(map[string]any{"property": prop, "bounded_stand_in": meta.Test, "functions": meta.Functions, "failing_input": res["failing_input"], "go_test_output": firstLines(string(o), 12), "reproduced_on_real_code": true}, "", " ")
+		os.WriteFile(rp, rb, 0o644)
+		viol = append(viol, fmt.Sprintf("VIOLATION property=%s replay=%s", prop, rp), "  failed bounded stand-in: "+meta.Test+" ("+meta.Claim+")")
+	} else {
+		rec["status"] = "held on every case explored"
+	}
+	return []map[string]any{rec}, viol
 }
